@@ -64,6 +64,8 @@ type Check struct {
 	Bounds func(tier string) map[string]any
 	// Custom, when set, replaces the worker-sharded runner entirely (scheduled checks).
 	Custom func(tier string, env *Env) *Summary
+	// After, when set, runs after the sharded enumeration and may merge further results (e.g. a scheduled part).
+	After func(tier string, env *Env, sum *Summary)
 	// Build selects the worker binary flavour: "" (plain) | "sched" | "sched-race".
 	Build string
 }
